@@ -339,6 +339,27 @@ def options(rng, g, speed=None, submethod=None, quant=True, pred=None, split=Non
     return toks, info
 
 
+def _tame(toks):
+    """avoid the encoder's memory blow-up (notes/eb.md finding 3): quantization finer than 24 bits is not combined
+    with encoder speed 0/1 (constrained multi-parallelogram + Shannon entropy tracker)"""
+    fine = False
+    for t in toks:
+        k, _, v = t.partition("=")
+        if len(k) > 1 and k[0] in "qx" and k[1:].isdigit() and int(v.split(",")[0]) > 24:
+            fine = True
+    if not fine:
+        return toks
+    out = []
+    for t in toks:
+        if t.startswith("speed="):
+            e, d = t[6:].split(",")
+            t = f"speed={max(2, int(e))},{d}"
+        out.append(t)
+    if not any(t.startswith("speed=") for t in out):
+        out.append("speed=5,5")
+    return out
+
+
 def _split_trace(mout):
     if mout is None or " | trace=" not in mout:
         return mout, None
@@ -495,7 +516,9 @@ def cases(rng, tier="quick"):
     for bits in (1, 2, 30):
         name, topo = rng.choice(rich)
         g = build(rng, topo, [("tex", "seam_line"), ("normal", "vertex")])
-        toks, info = options(rng, g, speed=rng.choice([0, 3]), pos_bits=bits)
+        # speed >= 2 for 30 bits: at speed 0/1 the constrained multi-parallelogram *encoder* allocates a histogram over
+        # the whole symbol range (25 GB / 72 s for a 98 face grid, notes/eb.md finding 3)
+        toks, info = options(rng, g, speed=rng.choice([0, 3]) if bits < 30 else rng.choice([2, 3]), pos_bits=bits)
         out.append(make(g, toks, info, ("topo:" + name, f"posbits:{bits}")))
     # 5. the generic random meshes of geomgen with the generic random option sets, Edgebreaker forced
     for _ in range(30 if tier == "quick" else 300):
@@ -503,6 +526,7 @@ def cases(rng, tier="quick"):
         if g.num_points == 0:
             continue
         toks, info = e2e.rand_options(rng, g, force_method=1, want_skip=rng.random() < 0.4)
+        toks = _tame(toks)
         out.append(make(g, toks, info, ("topo:geomgen_" + g.family, "atts:random")))
     return out
 
